@@ -80,8 +80,13 @@ class HTMLFormatter(BaseFormatter):
         _exp_formatter = lambda s: f"<sup>{s}</sup>"
 
         if m:
-            exp = int(m.group(2) + m.group(3))
-            mstr = _EXP_PATTERN.sub(r"\1×10" + _exp_formatter(exp), mstr)
+            # each number carries its own exponent (e.g. complex magnitudes)
+            mstr = _EXP_PATTERN.sub(
+                lambda m: m.group(1)
+                + "×10"
+                + _exp_formatter(int(m.group(2) + m.group(3))),
+                mstr,
+            )
 
         return mstr
 
